@@ -43,7 +43,7 @@ ASSUME Vals = {Me, E1, E2} /\ PowerOf[Me] = 1 /\ PowerOf[E1] = 2 /\ PowerOf[E2] 
 
 AllValues == (IF \E r \in Rounds : Proposer(r) = Me THEN {FreshValue(Me)} ELSE {}) \cup EnvValues
 AnyRep1 == Nil                                  \* canonical representative of an "any" pair
-AnyRep2 == CHOOSE v \in EnvValues : Valid(v)
+AnyRep2 == IF \E v \in EnvValues : Valid(v) THEN CHOOSE v \in EnvValues : Valid(v) ELSE CHOOSE v \in EnvValues : TRUE
 
 NoMsg == [t |-> "-", src |-> "-", r |-> -1, v |-> "-", pol |-> -2]
 NoSig == [v |-> None, pol |-> -3]
